@@ -8,4 +8,5 @@ let table : (string * (z list -> z list)) list = [
   ("c14_transform", run_c14_transform);
   ("c19", run_c19);
   ("px", run_px);
+  ("c18", run_c18);
 ]
